@@ -58,6 +58,10 @@ def check(repo, col, tier):
     c01_solver._assembly_jaxley(repo, col, "R-C02-rowsum")
     c01_solver._assembly_sparse(repo, col, "R-C02-rowsum")
     c01_solver._merge(repo, col, "R-C02-schedule")
+    # the branch-point rows are summed over groups of edges: weights and group indices must list the edges in the same order, or a
+    # uniform voltage does not stay uniform and charge is not conserved at the branch points
+    col.rule("R-C02-levels", "level bookkeeping, branch-point grouping and within-branch edge tables", 8)
+    c01_solver._levels(repo, col, "R-C02-levels")
 
 
 def _stim(repo, col, R="R-C02-stim"):
